@@ -507,25 +507,23 @@ Definition spec_scen (via lost : Z) (myMAC myIP dest gw peerMAC : list Z)
 (* -- monitor for neighbour discovery (RFC 4861 section 4.3/4.4 layouts, RFC 4443 2.3 checksum, RFC 4291
    2.7.1 solicited-node address), written with plain byte positions and its own one's-complement sum --
 
-   Reading of the property text for IPv6: "its own addresses" = the unicast addresses assigned to the
-   NIC; a solicitation is "addressed to it" when its IPv6 destination is an address / group of the
-   NIC or the solicited-node multicast address of the target (the group every holder of the target
+   Reading of the property text for IPv6: "its own addresses" = the addresses the NIC holds (every
+   address added to it, a multicast group added with AddAddress included); a solicitation is
+   "addressed to it" when its IPv6 destination is an address / group of the NIC, or - for a unicast
+   target - the solicited-node multicast address of the target (the group every holder of the target
    must listen on); "its own link address" = the link endpoint's address in a target link-layer
    address option; "addressed to the requester" = IPv6 destination = the solicitation's source, link
    destination = the frame's link-layer source; "the sender's mapping" = the sender's IPv6 address
-   (advertisements: the target address) and the link-layer address the sender states in its
-   source / target link-layer address option, or the frame's link-layer source when the message has
-   no such option right behind the target.  The ICMPv6 checksum, hop limit and code of the inbound
-   message are not part of the property text and are not looked at.
+   and, for advertisements, the advertised target address, each with the link address the frame came
+   from (nothing is required for the unspecified address).  The ICMPv6 checksum, hop limit and code
+   of the inbound message and the contents of its options are not part of the property text and are
+   not looked at.
    Messages whose first view ends inside the part the handler reads (the C13-split-header
    situation) may be answered / learned from or not.
    Result: 0 ok, 1 violation,
-     2 = a solicitation for an own address sent to the target's solicited-node multicast address is
-         not answered because the NIC never joined that group (C12-ndp-solicited-node-not-joined),
-     3 = a solicitation whose target is a multicast group the NIC joined is answered, with the
-         group address as source (C12-ndp-multicast-target-answered),
-     4 = the link address recorded is the frame's link-layer source although the sender stated a
-         different one in its link-layer address option (C12-ndp-lladdr-option-ignored). *)
+     2 = a solicitation for an own unicast address sent to the target's solicited-node multicast
+         address is not answered because the NIC never joined that group
+         (C12-ndp-solicited-node-not-joined). *)
 Fixpoint wsum16 (l : list Z) : Z :=
   match l with
   | a :: b :: t => a * 256 + b + wsum16 t
@@ -565,46 +563,44 @@ Definition spec_ndp (locals : list (list Z)) (myMAC srcMAC pkt chunks : list Z) 
   let is_ns := hdr_ok && (ty =? 135) && (24 <=? length msg)%nat in
   let is_na := hdr_ok && (ty =? 136) && (32 <=? length msg)%nat in
   let split := (is_ns && (seen <? 24)%nat) || (is_na && (seen <? 32)%nat) in
-  let assigned := existsb (leqb target) locals in
-  let own := assigned && negb (is_mc target) in
-  (* the link-layer address option right behind the target, when there is a well-formed one *)
-  let stated (oty : Z) :=
-    if (32 <=? length msg)%nat && (nth 24 msg 0 =? oty) && (nth 25 msg 0 =? 1) then Some (sub msg 26 6) else None in
+  let own := existsb (leqb target) locals in
   let reply_ok :=
     match frames with
     | [(p, b, d)] =>
         (p =? ip6Proto) && leqb d srcMAC && ip6_icmp32 b target src &&
-        leqb (sub b 40 2) [136; 0] && leqb (sub b 44 4) [96; 0; 0; 0] && leqb (sub b 48 16) target &&
+        leqb (sub b 40 2) [136; 0] &&
+        (* flags: not a router; solicited (RFC 4861 7.2.4; either way for a probe from the unspecified
+           address); override is a SHOULD; reserved bits zero *)
+        (let fl := nth 44 b 0 in (fl =? 96) || (fl =? 64) || (all_zero src && ((fl =? 32) || (fl =? 0)))) &&
+        all_zero (sub b 45 3) && leqb (sub b 48 16) target &&
         leqb (sub b 64 8) ([2; 1] ++ zpad 6 myMAC)
     | _ => false
     end in
   (* no frame is a neighbour advertisement (an echo request among the mutations is answered by an echo reply) *)
   let no_advert :=
     forallb (fun f => match f with (p, b, d) => negb ((p =? ip6Proto) && (nth 40 b 0 =? 136)) end) frames in
-  (* lookups: [must] = address that has to be known, [may] = address that may be known, all others unknown;
-     a known address carries [mac] *)
-  let learn_ok (must may : list (list Z)) (mac : list Z) :=
+  (* lookups: [must] = addresses that have to be known, [may] = may be known, all others unknown;
+     a known address carries the link address the frame came from *)
+  let learn_ok (must may : list (list Z)) :=
     forallb (fun l => match l with (ip, found, m) =>
-      if existsb (leqb ip) must then found && leqb m mac
-      else if existsb (leqb ip) may then negb found || leqb m mac || leqb m srcMAC
+      if existsb (leqb ip) must then found && leqb m srcMAC
+      else if existsb (leqb ip) may then negb found || leqb m srcMAC
       else negb found end) lookups in
-  let judge_learn (must may : list (list Z)) (st : option (list Z)) :=
-    let want := match st with Some m => m | None => srcMAC end in
-    if learn_ok must may want then 0
-    else if learn_ok must may srcMAC then 4
-    else 1 in
+  let judge_learn (must may : list (list Z)) : Z := if learn_ok must may then 0 else 1 in
+  (* the sender's own address, unless it is the unspecified address (nothing to learn then) *)
+  let sender_must := if all_zero src then [] else [src] in
+  let sender_may := if all_zero src then [src] else [] in
   match frames with
   | _ :: _ =>
-      if is_ns && accepted && assigned && is_mc target then (if reply_ok then 3 else 1)
-      else if is_ns && accepted && own then
-        (if reply_ok then (if all_zero src then judge_learn [] [src] (stated 1) else judge_learn [src] [] (stated 1)) else 1)
-      else if no_advert && negb is_ns && negb is_na then judge_learn [] [] None
+      if is_ns && accepted && own then (if reply_ok then judge_learn sender_must sender_may else 1)
+      else if no_advert && negb is_ns && negb is_na then judge_learn [] []
       else 1
   | [] =>
-      if is_ns && negb split && own && (accepted || leqb dst (sn_of target)) then (if accepted then 1 else 2)
+      if is_ns && negb split && own && accepted then 1
+      else if is_ns && negb split && own && negb (is_mc target) && leqb dst (sn_of target) then 2
       else if is_na && accepted then
-        (if split then judge_learn [] [target; src] (stated 2) else judge_learn [target] [src] (stated 2))
-      else judge_learn [] [] None
+        (if split then judge_learn [] [target; src] else judge_learn (target :: sender_must) sender_may)
+      else judge_learn [] []
   end.
 
 Definition spec_ndpreq (kind : Z) (addr localAddr myMAC : list Z) (panicked : bool)
